@@ -12,3 +12,5 @@ import Rpki.Props.C02
 #print axioms Rpki.Props.C02.attrs_missing_rejected
 #print axioms Rpki.Props.C02.attrs_duplicate_rejected
 #print axioms Rpki.Props.C02.attrs_too_long_rejected
+#print axioms Rpki.Props.C02.accepted_object_octets
+#print axioms Rpki.Props.C02.tampered_object_octets
